@@ -171,8 +171,10 @@ def _variant_values(base, variant):
         return leaves
     out = {}
     for p, v in leaves.items():
-        if variant == "alt":
-            out[p] = R.alt_value(dl[p]) if p in dl and not isinstance(dl[p], dict) else v
+        if variant == "alt":          # every leaf that has a default differs from it
+            out[p] = R.alt_value(dl[p]) if p in dl else v
+        elif variant == "distinct":   # as shipped, except where the shipped value equals the default
+            out[p] = R.alt_value(dl[p]) if p in dl and R.same(v, dl[p]) else v
         elif variant == "falsy":
             out[p] = R.falsy_value(v, dl.get(p, R.ABSENT))
         else:
@@ -544,19 +546,20 @@ def apply_cases(quick):
                 cases.append({"kind": "apply", "file": rel, "variant": variant, "nleaves": n, "masks": {"list": ch}})
         if quick:
             continue
+        # full power sets.  Shipped file: every subset of its leaves, values as shipped except that a value equal
+        # to the packaged default is changed ("distinct": otherwise who won is unobservable at that leaf).
+        # Defaults file against itself: all subsets of the elast + qha.settings leaves x {none, all} of the rest,
+        # every value changed ("alt").
         if rel == R.DEFAULT_REL:
-            # the file against itself is blind as shipped (user value == default value): marked values only,
-            # all subsets of the elast + qha.settings leaves x {none, all} of the rest
             fm = full_L_masks(paths)
             info[rel]["full_subsets"] = {"alt": len(fm)}
             for ch in _chunks(fm, 1024):
                 cases.append({"kind": "apply", "file": rel, "variant": "alt", "nleaves": n, "masks": {"list": ch}})
         else:
-            info[rel]["full_subsets"] = {"shipped": 1 << n, "alt": 1 << n}
-            for variant in ("shipped", "alt"):
-                for a in range(0, 1 << n, 1024):
-                    cases.append({"kind": "apply", "file": rel, "variant": variant, "nleaves": n,
-                                  "masks": {"range": [a, min(a + 1024, 1 << n)]}})
+            info[rel]["full_subsets"] = {"distinct": 1 << n}
+            for a in range(0, 1 << n, 1024):
+                cases.append({"kind": "apply", "file": rel, "variant": "distinct", "nleaves": n,
+                              "masks": {"range": [a, min(a + 1024, 1 << n)]}})
     return cases, info
 
 
@@ -627,8 +630,10 @@ def explore(ctx):
         "leaves {1,2}, nesting depth <= k, empty dictionaries included (k=2 quick: 144x144; k=3 thorough: 21609x144); "
         "one case = one user dict against all 144 defaults. apply: apply_default_config on sub-dictionaries (subsets of "
         "leaf paths) of each shipped settings file in three value variants (as shipped / every leaf changed to differ "
-        "from the default / every leaf falsy) - bounded set in quick (power set of elast leaves, <=3 kept or <=3 removed "
-        "of elast+qha.settings leaves), full power set in thorough; plus one user entry of every value kind at every "
+        "from the default / every leaf falsy) on a bounded set in both tiers (power set of elast leaves, <=3 kept or <=3 "
+        "removed of elast+qha.settings leaves, x {none, all} of the other leaves); thorough adds the full power set of "
+        "the leaves of each example file (values as shipped, changed only where equal to the default) and, for the "
+        "defaults file, all subsets of its elast+qha.settings leaves with every value changed; plus one user entry of every value kind at every "
         "path of the packaged defaults. validate: 4 shipped files x every documented field x every perturbation. "
         "yamljson: shipped/effective configurations and one probe per scalar kind and YAML-sensitive string. history: "
         "all sequences of length 1..3 over 10 operations on shared objects. A case is non-trivial when: merge - the "
